@@ -543,7 +543,7 @@ PROPS["C20"] = dict(
           "loader: the configured argv is the file's list, string for string. Non-trivial: at least two hook runs, a placeholder-like "
           "argument and a link with shell-significant characters / a list with $, ~ or %. Distinct = distinct case."),
     units=[
-        rapid("Prop", "TestProp", 1200, 20000, shards=(8, 16), config_toml=_NET, timeout=dict(quick=600, thorough=3000)),
+        rapid("Prop", "TestProp", 1200, 12000, shards=(8, 16), config_toml=_NET, timeout=dict(quick=600, thorough=3000)),
         rapid("ConfigHook", "TestConfigHook", 4000, 200000, config_toml=_NET),
     ],
     manifest=dict(
